@@ -150,10 +150,12 @@ def gen_traces(d, prop, tier, sd):
 
 def judge(d, prop, out, traces, canary, verdicts, st):
     byid = {t["id"]: t for t in traces}
+    canary_bad = None
     if canary is not None:
         cv = accept.final_verdict(verdicts[canary["id"]])
         if cv["v"] != "MISMATCH":
-            raise MachineryError("%s: canary (corrupted observation) was not rejected: %s" % (d.name, cv))
+            # (judged below: corrupting an observation that is itself wrong can make it right)
+            canary_bad = "%s: canary (corrupted observation) was not rejected: %s" % (d.name, cv)
     for iv in st["invariant_violations"]:
         out.violation("invariant %s is false on a trace recorded from the implementation" % iv["name"],
                       {"kind": "invariant_on_trace", "module": d.name, "property": prop, "invariant": iv["name"],
@@ -187,6 +189,8 @@ def judge(d, prop, out, traces, canary, verdicts, st):
                 tags[b] = tags.get(b, 0) + 1
             if d.nontrivial(prop, v, t):
                 keys.add(trace_key(t))
+    if canary_bad and not out.violations:
+        raise MachineryError(canary_bad)
     out.cov["evaluations"] = events
     out.cov["distinct_nontrivial"] = len(keys)
     out.cov["rule"] = d.rule
